@@ -135,11 +135,20 @@ func (fr *frame) callBuiltin(callpos token.Pos, fn *ssa.Builtin, args []value) v
 				}
 			}
 		case []value:
-			for i := range m {
-				in.undo = append(in.undo, undoRec{addr: &m[i], old: m[i]})
-			}
 			if len(m) > 0 {
-				inconclusive("clear on slice not modelled")
+				var et types.Type
+				if sig, ok := fn.Type().(*types.Signature); ok && sig.Params().Len() == 1 {
+					if st, ok := sig.Params().At(0).Type().Underlying().(*types.Slice); ok {
+						et = st.Elem()
+					}
+				}
+				if et == nil {
+					inconclusive("clear on slice of unknown element type")
+				}
+				for i := range m {
+					in.undo = append(in.undo, undoRec{addr: &m[i], old: m[i]})
+					m[i] = zero(et)
+				}
 			}
 		}
 		return nil
